@@ -193,6 +193,9 @@ func GenPprof(rt *rapid.T, sh PprofShape) Pprof {
 	nloc := rapid.IntRange(1, 10).Draw(rt, "nlocs")
 	withInlining := rapid.IntRange(0, 9).Draw(rt, "with-inlining") < 3
 	withZeros := rapid.IntRange(0, 9).Draw(rt, "with-zero-values") < 3
+	// delta heap profiles: many samples have 0 for the first sample type (alloc_objects of
+	// the interval) and something for a later one (inuse_*)
+	deltaHeap := len(sh.SampleTypes) >= 2 && rapid.IntRange(0, 9).Draw(rt, "delta-heap") < 3
 	for i := 0; i < nloc; i++ {
 		var lines []int
 		k := rapid.IntRange(0, 9).Draw(rt, "loc-lines")
@@ -257,6 +260,13 @@ func GenPprof(rt *rapid.T, sh PprofShape) Pprof {
 				v = 1
 			}
 			s.Values = append(s.Values, v)
+		}
+		if deltaHeap && rapid.IntRange(0, 9).Draw(rt, "first-zero") < 6 {
+			s.Values[0] = 0
+			last := len(s.Values) - 1
+			if s.Values[last] == 0 {
+				s.Values[last] = int64(rapid.IntRange(1, 4096).Draw(rt, "later-value"))
+			}
 		}
 		p.Samples = append(p.Samples, s)
 	}
